@@ -162,6 +162,7 @@ def gen_hist(rng, maxlen=40):
             ops.append(P(i, rng.choice([200, 200, 200, 500])))
     n = rng.randint(10, maxlen)
     slots = set()
+    hslots = set()
     while len(ops) < n:
         k = rng.below(100)
         cur = [i for i, _ in servers]
@@ -192,9 +193,12 @@ def gen_hist(rng, maxlen=40):
         elif k < 62:
             ops.append({"op": "delete"})
         elif k < 64:
-            ops.append({"op": "hold", "slot": rng.below(2)})
-        elif k < 66:
-            ops.append({"op": "pickone", "slot": rng.below(2)})
+            sl = rng.below(2)
+            hslots.add(sl)
+            ops.append({"op": "hold", "slot": sl})
+        elif k < 67:
+            sl = rng.choice(sorted(hslots)) if hslots and rng.chance(9, 10) else rng.below(2)
+            ops.append({"op": "pickone", "slot": sl})
         elif k < 70:
             sl = rng.below(3)
             slots.add(sl)
@@ -325,7 +329,7 @@ def nontrivial_key(case, obs):
     got = any(o["op"] in ("pop", "request") and (s["picked"] >= 0 or s["stub"] >= 0) for o, s in zip(ops, steps))
     constrained = False
     for o, s in zip(ops, steps):
-        if o["op"] in ("pop", "request"):
+        if o["op"] in ("pop", "request", "pickone"):
             if any(e["present"] and (e["disabled"] or not e["healthy"]) for e in s["eps"]):
                 constrained = True
     answered = any(o["op"] == "probe" and s["res"] == "ok" for o, s in zip(ops, steps))
